@@ -165,6 +165,33 @@ def generate():
                 return [sx.lit(x) for x in np.ravel(m.logpdf(pars, np.asarray(data, dtype=object)))]
             sig = '(P : Prim K) (lpois : K → K → K) (lnorm : K → K → K → K) (' + ' '.join(SYMS) + ' : K) (' + ' '.join(lean_par(p) for p in BASE_PARS) + ' : K)'
             tree = sx.paths(run, positive=SYMS)
+            # numeric self-check: the same Workspace operations on a workspace of random numbers, real numpy backend
+            mgr.this.state['default'] = sd; mgr.this.state['current'] = sc; nbmod.numpy_backend = orig_cls
+            try:
+                me = sys.modules[base_spec.__module__]
+                def reference(env):
+                    saved_var = me.var
+                    me.var = lambda n_: env[n_]
+                    try:
+                        ws, kw = mk()
+                        m = ws.model(validate=False, **kw)
+                        pars = np.asarray([env[lean_par(base_name(n))] for n in m.config.par_names])
+                        return m.logpdf(pars, np.asarray(ws.data(m)))
+                    finally:
+                        me.var = saved_var
+
+                def sampler(rng):
+                    env = {x: rng.uniform(20, 80) for x in SYMS}
+                    for x in ('clo', 'chi', 'slo', 'shi'): env[x] = rng.uniform(0.7, 1.3)
+                    for x in ('e0', 'e1'): env[x] = rng.uniform(1, 8)
+                    for p_ in BASE_PARS: env[lean_par(p_)] = rng.choice([rng.uniform(-2.5, 2.5), 1.0, -1.0]) if p_ in ('sysA', 'nullsys') else rng.uniform(0.5, 1.5)
+                    return env
+                from scipy.special import xlogy, gammaln
+                funcs = {'lpois': lambda n_, lam: float(xlogy(n_, lam) - lam - gammaln(n_ + 1.0)),
+                         'lnorm': lambda x_, mu_, sg_: float(-np.log(sg_ * np.sqrt(2 * np.pi)) - ((x_ - mu_) / (np.sqrt(2) * sg_)) ** 2)}
+                sx.selfcheck(f'ws/{tag}', tree, None, sampler, reference, funcs=funcs, n=30, rtol=1e-8)
+            finally:
+                mgr.this.state['default'] = (sb, sd[1]); mgr.this.state['current'] = (sb, sc[1]); nbmod.numpy_backend = lambda *a, **k: sb
             out.append(f'/-- `{tag}`: `Model.logpdf(pars, Workspace.data(model))`; channels {info["channels"]}, parameters {info["names"]}, POI {info["poi"]!r}, {info["ndata"]} data entries -/')
             out.append(f'def ws_{tag}_logpdf {sig} : K :=\n{sx.lean_tree(project(tree, 0))}\n')
             if tag in MAIN_TOO:
